@@ -109,6 +109,15 @@ def update_waterfall(vc):
     if prior == 'none':
         vc.ensure('C03/_update_waterfall/none/post/synthetic-header-carries-the-source-name', And(w.fields['header']['source_name'] == 'SRC', w.fields['header']['rawdatafile'] == 'Synthetic'))
     vc.ensure(f'C03/_update_waterfall/{prior}/frame/frame-data-untouched', F['data'] is d0)
+    # history: the frame is re-timed after its Waterfall was requested (Cadence.overwrite_times does this); the next request / save must
+    # describe the frame as it is *now*
+    t_new = Real('t_start_after_retiming')
+    vc.interp.setattr(f, 't_start', t_new)
+    out2 = vc.call(FR + '.get_waterfall', f)
+    vc.ensure(f'C03/get_waterfall/{prior}/after-retiming/exc/none', out2.ok)
+    if out2.ok:
+        vc.ensure(f'C03/_update_waterfall/{prior}/after-retiming/post/tstart-follows-the-current-start-time',
+                  And(eq(out2.value.fields['header']['tstart'], (t_new / 86400) + 40587), eq(out2.value.fields['file_header']['tstart'], (t_new / 86400) + 40587)))
 
 
 @contract('C03', 'load_from_waterfall_and_round_trip', functions=[FR + '.__init__', FR + '._update_waterfall', WU + ':get_data'])
